@@ -172,6 +172,10 @@ func genBatchWalk(r *rand.Rand, n int) []Step {
 				s["p"], s["din"] = float64(1+r.Intn(2)), pick(r, "uusdc", "")
 			}
 			st = append(st, s)
+			if r.Intn(24) == 0 { // a request placed through the route-finding front end in the same block (the block's parse is then opaque)
+				st = append(st, Step{"a": "swapByDenom", "u": pick(r, users...), "din": pick(r, "uatom", "uelys", "uusdc"), "dout": pick(r, "uusdc", "uatom", "uelys"),
+					"sz": pick(r, "1000000", "s1", "s2"), "rcpt": pick(r, "", "u4")})
+			}
 			if r.Intn(6) == 0 {
 				st = append(st, pick(r, Step{"a": "join", "u": pick(r, users...), "p": float64(1 + r.Intn(2)), "sz": "s3", "mode": "all"},
 					Step{"a": "exit", "u": "u1", "p": float64(1 + r.Intn(2)), "frac": "third"}))
@@ -308,6 +312,9 @@ func genChainWalk(r *rand.Rand, n int) []Step {
 			st = append(st, Step{"a": "unstake", "u": pick(r, u, u, "u1"), "d": pick(r, "uelys", "uelys", "ueden", "uedenb", "amm/pool/1", "amm/pool/2", "stablestake/share"), "frac": pick(r, "one", "third", "half", "all", "over", "twice")})
 		case 33:
 			if r.Intn(3) == 0 {
+				st = append(st, Step{"a": "swapByDenom", "u": u, "din": pick(r, "uatom", "uelys", "uusdc", "uusdt"), "dout": pick(r, "uusdc", "uatom", "uelys"),
+					"sz": pick(r, "1000", "1000000", "s1", "s2"), "rcpt": pick(r, "", "", "u4")})
+			} else if r.Intn(3) == 0 {
 				st = append(st, Step{"a": "setPortfolio", "u": u, "of": pick(r, users...)})
 			} else {
 				st = append(st, Step{"a": "withdrawStaking", "u": u, "kind": pick(r, "all", "elys")})
